@@ -16,7 +16,8 @@ RULE = (
     "Cases: a model of each family (daily legacy/current profiles, billing, hourly solar and non-solar profiles, CalTRACK hourly) "
     "fitted on a full-year baseline (every month and weekday present, by construction) x a reporting set (1 day .. 1 year, "
     "hourly spans may contain 23/25-hour days) x an alteration of its observed column from {scaled by k, permuted, random cells "
-    "NaN, a whole month NaN, all NaN, column absent, all zero, scattered zeros, sign flipped, +-inf cells}; in two cases of five the model "
+    "NaN, a whole month NaN, all NaN, column absent, all zero, scattered zeros, sign flipped, +-inf cells}, with up to three gaps in the "
+    "reporting period's temperature / irradiance (identical in both runs, so filling them must not look at usage); in two cases of five the model "
     "has already produced an interim report over a shorter span and both runs start from copies of that used model. Oracle (metamorphic): the altered run "
     "does not raise if the original did not; for every timestamp for which both runs produce a prediction the predicted value "
     "is bit-identical; hourly and CalTRACK runs produce a prediction on every row. Non-trivial: the alteration changes at least "
@@ -38,7 +39,9 @@ def cases(draw, family=None):
     return {"kind": "alt", "baseline": b, "rep": r, "alt": draw(st.sampled_from(ALTS)), "k": draw(st.sampled_from([0.0, 0.5, 3.0, 1e6, -2.0])),
             "alt_seed": draw(st.integers(0, 2 ** 20)),
             # the model may have been used before (an interim report over a shorter span)
-            "interim": draw(st.sampled_from([None, None, 7, 30, 90]))}
+            "interim": draw(st.sampled_from([None, None, 7, 30, 90])),
+            # gaps in the reporting period's weather (same in both runs): (column, position as a fraction, length in rows)
+            "wx_gaps": draw(st.lists(st.tuples(st.sampled_from(["temperature", "ghi"]), st.floats(0, 0.95), st.integers(1, 40)), max_size=3))}
 
 
 def alter(df, c):
@@ -85,8 +88,15 @@ def judge(c, rec):
             pass
     m_alt = __import__("copy").deepcopy(m)  # both runs start from the same (possibly used) model
     df = zoo.reporting_frame(b, c["rep"])
+    gaps = 0
+    for col, pos, ln in c.get("wx_gaps", ()):
+        if col in df.columns and len(df) > 6:
+            a0 = int(pos * len(df))
+            ln = min(ln, len(df) // 3)
+            df.iloc[a0:a0 + ln, df.columns.get_loc(col)] = np.nan
+            gaps += 1
     df2 = alter(df, c)
-    cls = ["family=" + fam, "profile=" + b["profile"], "alt=" + c["alt"], "n=%d" % c["rep"]["n"], "used-model=%d" % bool(c.get("interim"))]
+    cls = ["family=" + fam, "profile=" + b["profile"], "alt=" + c["alt"], "n=%d" % c["rep"]["n"], "used-model=%d" % bool(c.get("interim")), "weather-gaps=%d" % min(gaps, 1)]
     rep1 = zoo.build_reporting(b, c["rep"], frame=df)
     try:
         p1 = zoo.predict(m, b, rep1)
